@@ -7,9 +7,20 @@ from typing import Dict, Iterable, List, Optional, Set, Tuple
 
 from fsa.cfg import CFG, Node, raised_class
 from fsa.flow import LocalFlow, PARAM, dominators, guards, node_expr_roots
-from fsa.match import conj_atoms, disj_atoms, dotted
+from fsa.match import conj_atoms, disj_atoms, dotted, nnf_atoms, substitute
 from fsa.source import AnchorMissing, FunctionInfo, Repo, Unsupported, iter_own_nodes, text
 from rules.solver_common import fsic_hierarchy
+
+
+class VDef:
+    """One (possibly guarded) definition of a local: node, value expression, facts known when it applies, aug-op."""
+
+    def __init__(self, node, value, facts, op=None) -> None:
+        self.node, self.value, self.facts, self.op = node, value, facts, op
+
+    def knows(self, src: str, truth: bool = True) -> bool:
+        from fsa.match import has_fact
+        return has_fact(self.facts, src, truth)
 
 
 class Fn:
@@ -35,13 +46,33 @@ class Fn:
             tn = self.cfg.nodes[tid]
             if tn.kind != 'test':
                 continue
-            if lab == 'T':
-                for a in conj_atoms(tn.ast):
-                    out.append((a, True, tn))
-            elif lab == 'F':
-                for a in disj_atoms(tn.ast):
-                    out.append((a, False, tn))
+            if lab in ('T', 'F'):
+                for (a, truth) in nnf_atoms(tn.ast, lab == 'T'):
+                    out.append((a, truth, tn))
         return out
+
+    def expand(self, nid: int, e: ast.AST, depth: int = 4, stop=()) -> ast.AST:
+        """`e` with every local that has exactly one reaching definition at node `nid`, bound to a pure
+        expression, replaced by that expression (recursively): `x = a + b; f(x)` is read as `f(a + b)`."""
+        if depth <= 0:
+            return e
+        mapping = {}
+        for x in ast.walk(e):
+            if isinstance(x, ast.Name) and isinstance(x.ctx, ast.Load) and x.id in self.lf.locals and x.id not in stop and x.id not in mapping:
+                vals = self.lf.values_reaching(nid, x.id)
+                if len(vals) == 1 and vals[0][0] != PARAM and vals[0][1] is not None:
+                    site, v = vals[0]
+                    if not any(isinstance(y, (ast.Yield, ast.Await, ast.NamedExpr, ast.Lambda, ast.ListComp, ast.DictComp, ast.SetComp, ast.GeneratorExp)) for y in ast.walk(v)):
+                        mapping[x.id] = self.expand(site, v, depth - 1, stop)
+        return substitute(e, mapping) if mapping else e
+
+    def holds(self, nid: int, src: str, truth: bool = True) -> bool:
+        """Is the fact `src` known to have value `truth` on every path to node `nid`?"""
+        from fsa.match import has_fact
+        return has_fact(self.guard_atoms(nid), src, truth)
+
+    def etext(self, nid: int, e: ast.AST, stop=()) -> str:
+        return text(self.expand(nid, e, stop=stop))
 
     def where(self, n) -> str:
         ln = n.lineno if hasattr(n, 'lineno') else 0
@@ -78,6 +109,40 @@ class Fn:
                 tg = a.targets if isinstance(a, ast.Assign) else [a.target]
                 if any(isinstance(t, ast.Name) and t.id == name for t in tg):
                     out.append(n)
+        return out
+
+    # -- virtual definitions: tuple unpacking is split element-wise, conditional expressions into guarded arms
+    def vdefs(self, name: str) -> List['VDef']:
+        out: List[VDef] = []
+        for n in self.cfg.nodes:
+            a = n.ast
+            if n.kind != 'stmt' or a is None:
+                continue
+            pairs = []  # (value expr or None, aug op)
+            if isinstance(a, ast.Assign):
+                for t in a.targets:
+                    if isinstance(t, ast.Name) and t.id == name:
+                        pairs.append((a.value, None))
+                    elif isinstance(t, (ast.Tuple, ast.List)) and isinstance(a.value, (ast.Tuple, ast.List)) and len(t.elts) == len(a.value.elts):
+                        for te, ve in zip(t.elts, a.value.elts):
+                            if isinstance(te, ast.Name) and te.id == name:
+                                pairs.append((ve, None))
+                    elif isinstance(t, (ast.Tuple, ast.List)) and any(isinstance(te, ast.Name) and te.id == name for te in t.elts):
+                        idx = [i for i, te in enumerate(t.elts) if isinstance(te, ast.Name) and te.id == name][0]
+                        pairs.append((ast.Subscript(value=a.value, slice=ast.Constant(value=idx), ctx=ast.Load()), None))
+            elif isinstance(a, ast.AnnAssign) and isinstance(a.target, ast.Name) and a.target.id == name and a.value is not None:
+                pairs.append((a.value, None))
+            elif isinstance(a, ast.AugAssign) and isinstance(a.target, ast.Name) and a.target.id == name:
+                pairs.append((a.value, a.op))
+            for (v, op) in pairs:
+                base = [(x, t) for (x, t, _tn) in self.guard_atoms(n.id)]
+                arms = [(v, [])]
+                if op is None and isinstance(v, ast.IfExp):
+                    arms = [(v.body, nnf_atoms(v.test, True)), (v.orelse, nnf_atoms(v.test, False))]
+                for (val, extra) in arms:
+                    if op is None and isinstance(val, ast.Name) and val.id == name:
+                        continue  # identity arm of `x = d if x is None else x`
+                    out.append(VDef(n, val, base + list(extra), op))
         return out
 
     def path_to(self, n: Node) -> List[str]:
